@@ -91,6 +91,20 @@ def case_family(family):
                     Q.Tetrahedron(order=order)
             elif family == "sphere":
                 Q.BazantOh(n=21)
+                # the derived rule used by extrapolation: reciprocal points, same weights, the original untouched
+                for o in (1, 2, 3):
+                    for dm in (1, 2, 3):
+                        s0 = Q.GaussLegendre(order=o, dim=dm)
+                        p0, w0 = s0.points.copy(), s0.weights.copy()
+                        t = s0.inv()
+                        nz = p0 != 0
+                        ok = (np.array_equal(s0.points, p0) and np.array_equal(s0.weights, w0) and np.array_equal(t.weights, w0)
+                              and np.allclose(t.points[nz] * p0[nz], 1.0, rtol=1e-14, atol=0) and np.all(t.points[~nz] == 0))
+                        if ok:
+                            run.ok("scheme.GaussLegendre", unit="GaussLegendre.inv")
+                        else:
+                            run.fail("scheme.GaussLegendre", "scheme=GaussLegendre(order=%d,dim=%d) clause=inv" % (o, dm),
+                                     "inv(): not the reciprocal points with the same weights, or the original rule was altered")
             elif family == "defaults":
                 # scheme objects built at import time as default arguments (before any monitor existed) are
                 # validated where they are used: build every region template and validate region.quadrature
@@ -141,7 +155,7 @@ def _required():
         for c in ("Triangle", "Tetrahedron"):
             req += ["%s(order=%s):exactness" % (c, order), "%s(order=%s):inside" % (c, order),
                     "%s(order=%s):measure" % (c, order)]
-    req += ["BazantOh(n=21):exactness", "BazantOh(n=21):inside", "BazantOh(n=21):measure", "default-of-template"]
+    req += ["BazantOh(n=21):exactness", "BazantOh(n=21):inside", "BazantOh(n=21):measure", "default-of-template", "scheme-attributes", "GaussLegendre.inv"]
     return req
 
 
